@@ -27,7 +27,6 @@ import (
 
 	wasmkeeper "github.com/CosmWasm/wasmd/x/wasm/keeper"
 	sdk "github.com/cosmos/cosmos-sdk/types"
-	authtypes "github.com/cosmos/cosmos-sdk/x/auth/types"
 	banktypes "github.com/cosmos/cosmos-sdk/x/bank/types"
 	distrtypes "github.com/cosmos/cosmos-sdk/x/distribution/types"
 	govtypes "github.com/cosmos/cosmos-sdk/x/gov/types"
@@ -54,23 +53,22 @@ import (
 // ---------------------------------------------------------------------------------------------------------------
 
 type op struct {
-	K      string   `json:"k"`             // kind
-	S      int      `json:"s"`             // sender: index in the account table
-	C      bool     `json:"c,omitempty"`   // commit (history) or probe
-	ID     int64    `json:"id,omitempty"`  // position id / lock id / pool id
-	IDs    []uint64 `json:"ids,omitempty"` // position ids
-	To     int      `json:"to,omitempty"`  // account index (-1: empty string)
-	From   int      `json:"from,omitempty"`
-	Amt    string   `json:"amt,omitempty"`
-	Amt1   string   `json:"amt1,omitempty"`
-	Den    string   `json:"den,omitempty"` // denom, "@k" stands for the bech32 address of account k
-	Sub    string   `json:"sub,omitempty"`
-	Dur    int64    `json:"dur,omitempty"` // seconds
-	Val    int      `json:"val,omitempty"` // validator index (-1: a well-formed address of no validator)
-	Lo     int64    `json:"lo,omitempty"`
-	Hi     int64    `json:"hi,omitempty"`
-	Bad    bool     `json:"bad,omitempty"` // SetDenomMetadata: metadata that fails Validate()
-	NoAuto bool     `json:"-"`
+	K    string   `json:"k"`             // kind
+	S    int      `json:"s"`             // sender: index in the account table
+	C    bool     `json:"c,omitempty"`   // commit (history) or probe
+	ID   int64    `json:"id,omitempty"`  // position id / lock id / pool id
+	IDs  []uint64 `json:"ids,omitempty"` // position ids
+	To   int      `json:"to,omitempty"`  // account index (-1: empty string)
+	From int      `json:"from,omitempty"`
+	Amt  string   `json:"amt,omitempty"`
+	Amt1 string   `json:"amt1,omitempty"`
+	Den  string   `json:"den,omitempty"` // denom, "@k" stands for the bech32 address of account k
+	Sub  string   `json:"sub,omitempty"`
+	Dur  int64    `json:"dur,omitempty"` // seconds
+	Val  int      `json:"val,omitempty"` // validator index (-1: a well-formed address of no validator)
+	Lo   int64    `json:"lo,omitempty"`
+	Hi   int64    `json:"hi,omitempty"`
+	Bad  bool     `json:"bad,omitempty"` // SetDenomMetadata: metadata that fails Validate(); h_swap: swap token1 for token0
 }
 
 type setup struct {
@@ -112,9 +110,9 @@ type static struct {
 }
 
 type step struct {
-	R     int    `json:"r"`            // 0 accepted, 1 rejected, 2 panic
-	EC    int    `json:"ec"`           // error class: 0 none, 1 authorisation, 2 other
-	VB    int    `json:"vb"`           // ValidateBasic: 0 ok, 1 fails, 2 message has none
+	R     int    `json:"r"`  // 0 accepted, 1 rejected, 2 panic
+	EC    int    `json:"ec"` // error class: 0 none, 1 authorisation, 2 other
+	VB    int    `json:"vb"` // ValidateBasic: 0 ok, 1 fails, 2 message has none
 	Err   string `json:"err,omitempty"`
 	D0    string `json:"d0"`
 	D1    string `json:"d1"`
@@ -134,20 +132,20 @@ type obs struct {
 // ---------------------------------------------------------------------------------------------------------------
 
 type world struct {
-	d0    string // digest of the committed state ("" = stale)
-	h     *apph.Helper
-	ctx   sdk.Context
-	names []string
-	addrs []sdk.AccAddress
-	idx   map[string]int
-	vals  []sdk.ValAddress
-	pools []uint64
-	bond  string
+	d0       string // digest of the committed state ("" = stale)
+	h        *apph.Helper
+	ctx      sdk.Context
+	names    []string
+	addrs    []sdk.AccAddress
+	idx      map[string]int
+	vals     []sdk.ValAddress
+	pools    []uint64
+	bond     string
 	contract int
 }
 
 const (
-	nUsers = 6 // A B C D F Z
+	nUsers = 6 // A B C D F Z (Z is never funded)
 )
 
 func userAddr(i int) sdk.AccAddress {
@@ -405,7 +403,9 @@ func (w *world) snapshot(ctx sdk.Context) snap {
 		s.Pos = append(s.Pos, []string{fmt.Sprint(p.PositionId), fmt.Sprint(w.ix(p.Address)), fmt.Sprint(p.PoolId),
 			p.Liquidity.BigInt().String(), fmt.Sprint(lockID), full})
 	}
-	sort.Slice(s.Pos, func(i, j int) bool { return len(s.Pos[i][0]) < len(s.Pos[j][0]) || (len(s.Pos[i][0]) == len(s.Pos[j][0]) && s.Pos[i][0] < s.Pos[j][0]) })
+	sort.Slice(s.Pos, func(i, j int) bool {
+		return len(s.Pos[i][0]) < len(s.Pos[j][0]) || (len(s.Pos[i][0]) == len(s.Pos[j][0]) && s.Pos[i][0] < s.Pos[j][0])
+	})
 
 	locks, err := app.LockupKeeper.GetPeriodLocks(ctx)
 	must(err)
@@ -650,7 +650,9 @@ func (w *world) build(o op) (sdk.Msg, func(ctx sdk.Context) (interface{}, error)
 	case "sf_add_to_cl":
 		m := &superfluidtypes.MsgAddToConcentratedLiquiditySuperfluidPosition{PositionId: uint64(o.ID), Sender: s,
 			TokenDesired0: sdk.NewCoin(w.bond, mkInt(o.Amt)), TokenDesired1: sdk.NewCoin("usdc", mkInt(o.Amt1))}
-		return m, func(c sdk.Context) (interface{}, error) { return sfS.AddToConcentratedLiquiditySuperfluidPosition(c, m) }
+		return m, func(c sdk.Context) (interface{}, error) {
+			return sfS.AddToConcentratedLiquiditySuperfluidPosition(c, m)
+		}
 	case "sf_unbond_convert_stake":
 		m := &superfluidtypes.MsgUnbondConvertAndStake{LockId: uint64(o.ID), Sender: s, ValAddr: w.valStr(o.Val),
 			MinAmtToStake: osmomath.ZeroInt(), SharesToConvert: sdk.NewCoin(den, mkInt(o.Amt))}
@@ -827,5 +829,3 @@ func runCase(t *testing.T, c cs) (o obs) {
 func TestDriver(t *testing.T) {
 	apph.Serve(t, runCase)
 }
-
-var _ = authtypes.ModuleName
